@@ -212,7 +212,7 @@ func buffersWL(x *mon.Ctx) {
 					continue
 				}
 				for kp := 0; kp < nKeyPlace; kp++ {
-					for rep := 0; rep < x.Scale(2, 24); rep++ {
+					for rep := 0; rep < x.Scale(2, 100); rep++ {
 						c := x.Begin("buffers scheme=%s cipher=%s pad=%s keys=%s rep=%d", mac.Names[s], f.name, ps.name, keyPlaceNames[kp], rep)
 						if c == nil {
 							continue
